@@ -14,7 +14,7 @@ r = sh(f'git -C /repo apply {d}/patch.diff')
 if r.returncode:
     print('PATCH DOES NOT APPLY:', r.stderr[-300:]); sys.exit(2)
 try:
-    dm = sh(f'NUTILS_SRC=/repo/src OMP_NUM_THREADS=1 timeout 600 /venv/bin/python {d}/demo.py')
+    dm = sh(f'NUTILS_SRC=/repo/src PYTHONDONTWRITEBYTECODE=1 PYTHONPYCACHEPREFIX=/var/tmp/seedpyc OMP_NUM_THREADS=1 timeout 600 /venv/bin/python {d}/demo.py')
     print(f'demo with change: exit={dm.returncode} {(dm.stdout.strip().splitlines() or [""])[-1][:200]}')
     for c in checks:
         t0 = time.time()
@@ -33,7 +33,7 @@ except Exception:
 ev.setdefault('repo_head', sh('git -C /repo log --format=%h -1').stdout.strip())
 ev['demo_with_change_exit'] = dm.returncode
 ev.setdefault('checks', {}).update(RESULTS)
-dm2 = sh(f'NUTILS_SRC=/repo/src OMP_NUM_THREADS=1 timeout 600 /venv/bin/python {d}/demo.py')
+dm2 = sh(f'NUTILS_SRC=/repo/src PYTHONDONTWRITEBYTECODE=1 PYTHONPYCACHEPREFIX=/var/tmp/seedpyc OMP_NUM_THREADS=1 timeout 600 /venv/bin/python {d}/demo.py')
 print(f'demo without change: exit={dm2.returncode}')
 ev['demo_without_change_exit'] = dm2.returncode
 json.dump(ev, open(d + '/eval.json', 'w'), indent=1)
